@@ -389,6 +389,45 @@ func coGenSingle(rng *rand.Rand, typ uint16) C09Case {
 
 var coFileSyscalls = []string{"2", "257", "83", "258", "82", "264", "316", "165", "90", "87", "263", "84", "133", "76", "188", "21"}
 
+// coGenFirstOther: [record of type typ, SYSCALL with the given syscall number, SOCKADDR and/or PATH ...].
+func coGenFirstOther(rng *rand.Rand, typ uint16, syscallNum string) C09Case {
+	seq := rng.Uint32()
+	ms := int64(rng.Intn(2000000000))*1000 + int64(rng.Intn(1000))
+	var c C09Case
+	_, body := coGenBody(rng, coKOther, rng.Intn(2))
+	c.Recs = append(c.Recs, coal.Rec{Typ: typ, Seq: seq, Ms: ms, Body: body})
+	_, sbody := coGenBody(rng, coKSyscall, 0)
+	// pin the syscall number (the generated body has exactly one syscall= field)
+	if i := strings.Index(sbody, "syscall="); i >= 0 {
+		j := i + len("syscall=")
+		k := j
+		for k < len(sbody) && sbody[k] != ' ' {
+			k++
+		}
+		sbody = sbody[:j] + syscallNum + sbody[k:]
+	}
+	c.Recs = append(c.Recs, coal.Rec{Typ: tSYSCALL, Seq: seq, Ms: ms, Body: sbody})
+	comp := [][]int{{coKSockaddr}, {coKSockaddr, coKPath}, {coKPath, coKCwd}, {coKSockaddr, coKProctitle}, {}}[rng.Intn(5)]
+	if syscallNum != "2" && rng.Intn(4) > 0 {
+		comp = [][]int{{coKSockaddr}, {coKSockaddr, coKProctitle}}[rng.Intn(2)]
+	}
+	for _, k := range comp {
+		typ2, b := coGenBody(rng, k, 0)
+		if k == coKSockaddr && rng.Intn(4) > 0 {
+			b = "saddr=" + []string{"02000050C0A800010000000000000000", "0A0000500000000000000000000000000000000000000001" + "00000000", "01002F72756E2F782E736F636B00"}[rng.Intn(3)]
+		}
+		c.Recs = append(c.Recs, coal.Rec{Typ: typ2, Seq: seq, Ms: ms, Body: b})
+	}
+	if rng.Intn(3) == 0 {
+		// the SYSCALL record need not be second
+		n := len(c.Recs)
+		if n > 2 {
+			c.Recs[1], c.Recs[n-1] = c.Recs[n-1], c.Recs[1]
+		}
+	}
+	return c
+}
+
 // coGenModeCase: a group whose selected PATH record has st_mode m.  The surrounding records vary
 // with m so that the 65 536 cases also sweep path-index hints and PARENT/UNKNOWN skipping.
 func coGenModeCase(rng *rand.Rand, m uint32) C09Case {
